@@ -98,7 +98,10 @@ def relation_case(draw, tier="quick"):
         if name in ("roc", "attenuated", "speed") and draw(st.integers(0, 2)) == 0:
             # sub-second instants and a shift that is not a whole number of seconds: elapsed times must not depend on
             # where the fractional parts fall
-            case["t"] = [v + draw(st.sampled_from([0.0, 0.125, 0.5, 0.75, 0.875])) for v in case["t"]]
+            shifted_t = [v + draw(st.sampled_from([0.0, 0.125, 0.5, 0.75, 0.875])) for v in case["t"]]
+            if all(b_ > a_ for a_, b_ in zip(shifted_t, shifted_t[1:])):
+                # (an axis that already has sub-second instants and one-second steps could lose its order)
+                case["t"] = shifted_t
             out["k"] = out["k"] + draw(st.sampled_from([0.5, 0.125, 0.875, 0.25]))
             out["subsecond"] = True
     return out
